@@ -2,6 +2,7 @@ package props
 
 import (
 	"fmt"
+	"path/filepath"
 	"sort"
 	"strings"
 	"testing"
@@ -28,6 +29,7 @@ type c06Case struct {
 	PreOps  []string     `json:"preOps,omitempty"` // From-Root: earlier operations on the same node tree
 	Inodes  int          `json:"inodes,omitempty"` // >0: the target is a file system of its own with room for Inodes-1 entries; the creation beyond that fails (ENOSPC)
 	Mode    uint32       `json:"mode,omitempty"`   // mode bits of the existing target directory (chmod notation, e.g. 01777); 0 = 0755
+	Early   bool         `json:"early,omitempty"`  // the option values (incl. the relative target) are built under another working directory than the call runs in
 }
 
 type c06Pre struct {
@@ -90,6 +92,7 @@ func c06Check(c c06Case) string {
 	cs.Opts.HasExts = c.HasExts
 	cs.Opts.Massive = c.Massive
 	cs.Opts.TargetOpt = c.Target
+	cs.Opts.EarlyOpts = c.Early
 	cs.FS = &ops.FSSpec{InodeLimit: c.Inodes}
 	if c.Inodes == 0 && c.State != "missing" {
 		cs.FS.TargetMode = c.Mode
@@ -100,10 +103,15 @@ func c06Check(c c06Case) string {
 	case "populated":
 		cs.FS.Pre = []ops.FSEntry{{Path: "~unrelated/keep.txt", Kind: "f", Data: "k"}, {Path: "~file.txt", Kind: "f", Data: "x"}, {Path: "~dir/sub", Kind: "d"}}
 	}
-	dangling := false
+	dangling, looped := false, false
 	for _, p := range c.PreRoot {
 		if p.Root < len(f) {
 			e := ops.FSEntry{Path: f[p.Root].Name, Kind: p.Kind, Data: "pre"}
+			if p.Kind == "loop" {
+				// a symbolic link to itself: the entry exists, but Stat fails with ELOOP
+				e.Kind, e.Data = "l", filepath.Base(f[p.Root].Name)
+				looped = true
+			}
 			if p.Kind == "dl" {
 				// a dangling symbolic link holds the root's name: os.Stat says "does not exist", mkdir(2) says EEXIST
 				e.Kind, e.Data = "l", "../no/such/place"
@@ -144,6 +152,15 @@ func c06Check(c c06Case) string {
 		expected[ops.JailTarget] = nil
 	}
 	switch {
+	case len(c.PreRoot) > 0 && c.Refusal == "" && looped && !dangling:
+		// the root's name is taken (by an entry that cannot even be followed): the call must fail, and without the massive
+		// option before anything has been made (the existence of the roots is checked first)
+		if res.Err.Nil {
+			return fmt.Sprintf("%sa root's name is held by a symbolic link to itself, but the call reported success", head)
+		}
+		if len(created) != 0 && !c.Massive {
+			return fmt.Sprintf("%sa root already exists (a symbolic link to itself) but entries were created: %v (error: %s)", head, created, res.Err.Text)
+		}
 	case len(c.PreRoot) > 0 && c.Refusal == "" && dangling:
 		// whether the library calls this "path exists" or passes the OS error on is its choice; success it is not:
 		// the root cannot be made (a root with children) or is not what the tree says (a directory / an empty file)
@@ -279,7 +296,7 @@ func c06Record(col *collector, c c06Case) {
 		cl = append(cl, "target:"+c.Target)
 	}
 	nontrivial := (files >= 1 && dirLeaves >= 1 && model.Merge(f).Depth() >= 2) || len(c.PreRoot) > 0 || c.Refusal != "" || c.Inodes > 0
-	col.eval(nontrivial, hash64(fmt.Sprint(f, c.Exts, c.HasExts, c.Entry, c.Massive, c.State, c.PreRoot, c.Refusal, c.LongAt, c.Target, c.PreOps, c.Inodes, c.Mode)), cl...)
+	col.eval(nontrivial, hash64(fmt.Sprint(f, c.Exts, c.HasExts, c.Entry, c.Massive, c.State, c.PreRoot, c.Refusal, c.LongAt, c.Target, c.PreOps, c.Inodes, c.Mode, c.Early)), cl...)
 	col.sample(func() any { return c })
 }
 
@@ -329,6 +346,7 @@ func c06Gen() *rapid.Generator[c06Case] {
 		if linkTarget(c.Target) && c.State == "missing" {
 			c.Target = "rel" // the one-character name is a link to the target and needs it to exist
 		}
+		c.Early = c.Target != "" && c.Target != "slash" && rapid.IntRange(0, 2).Draw(t, "earlyOpts") == 0
 		switch rapid.IntRange(0, 5).Draw(t, "scenario") {
 		case 0:
 			if c.State != "missing" {
@@ -338,7 +356,7 @@ func c06Gen() *rapid.Generator[c06Case] {
 					n = len(f)
 				}
 				for i := 0; i < n; i++ {
-					c.PreRoot = append(c.PreRoot, c06Pre{Root: rapid.IntRange(0, len(f)-1).Draw(t, "preRoot"), Kind: rapid.SampledFrom([]string{"d", "f", "d", "f", "dl"}).Draw(t, "preKind")})
+					c.PreRoot = append(c.PreRoot, c06Pre{Root: rapid.IntRange(0, len(f)-1).Draw(t, "preRoot"), Kind: rapid.SampledFrom([]string{"d", "f", "d", "f", "dl", "loop"}).Draw(t, "preKind")})
 				}
 			}
 		case 1:
@@ -354,6 +372,9 @@ func c06Gen() *rapid.Generator[c06Case] {
 			}
 			c.Refusal = rapid.SampledFrom([]string{"longname", "targetIsFile", "parentIsFile"}).Draw(t, "refusal")
 			c.LongAt = rapid.IntRange(0, f.Count()-1).Draw(t, "longAt")
+			if c.Refusal == "longname" && rapid.Bool().Draw(t, "longIsFile") {
+				c.Exts, c.HasExts = append(c.Exts, "L"), true // a childless over-long node is then a FILE whose creation fails
+			}
 			c.State = "empty"
 			if linkTarget(c.Target) {
 				c.Target = ""
